@@ -100,6 +100,7 @@ func init() {
 				}
 			}
 		}
+		x.strayAll()
 		// fixed deterministic corpus
 		saved := x.g
 		x.g = &Gen{rng: rand.New(rand.NewSource(20240917))}
